@@ -417,6 +417,9 @@ func opKinds(p *genProfile) []string {
 	}
 	if p.reopen {
 		kinds = append(kinds, "reopen", "reopen")
+		if !p.gc && p.kinds == nil {
+			kinds = append(kinds, "merge") // the periodic hint merge (merged hint file *.idx.m, collision table) between restarts
+		}
 	}
 	if p.gc {
 		kinds = append(kinds, "gc", "gc", "merge")
